@@ -591,6 +591,78 @@ theorem filter_result_unrepaired_witness :
       (.obj [("spec", .obj [("replicas", .num 1)])]))).get? "filterResult" = some (.obj [("r", .num 1)]) := by
   decide
 
+/-! ## The object the filter sees is the object shown -/
+
+mutual
+/-- `deepCopy` (json.Unmarshal ∘ json.Marshal, modelled as the node-by-node copy) changes nothing: no
+key of the object — `metadata.managedFields`, annotations, … — is lost or altered on the way to gojq. -/
+theorem copyJ_eq : ∀ j : J, copyJ j = j
+  | .null => rfl
+  | .bool _ => rfl
+  | .num _ => rfl
+  | .str _ => rfl
+  | .arr xs => by simp [copyJ, copyList_eq xs]
+  | .obj kvs => by simp [copyJ, copyKvs_eq kvs]
+theorem copyList_eq : ∀ xs : List J, copyList xs = xs
+  | [] => rfl
+  | x :: xs => by simp [copyList, copyJ_eq x, copyList_eq xs]
+theorem copyKvs_eq : ∀ kvs : List (String × J), copyKvs kvs = kvs
+  | [] => rfl
+  | (k, v) :: kvs => by simp [copyKvs, copyJ_eq v, copyKvs_eq kvs]
+end
+
+/-- **C09 filter_input_is_object.** For every jq program and every object, what `ApplyFilterValue`
+computes on its private copy is the jq result for the object itself. -/
+theorem filter_input_is_object (f : Prog) (obj : J) : applyFilterValue f obj = f.eval obj := by
+  simp [applyFilterValue, copyJ_eq]
+
+theorem ofrOfRun_eq (cfg : Cfg) (obj : J) : ofrOfRun cfg obj = ofrOf cfg obj := by
+  unfold ofrOfRun ofrOf
+  cases hf : cfg.filter <;> simp [filter_input_is_object]
+
+/-- **C09 shown_filter_result_clause.** Every element rendered with its full object (every binding that
+keeps full objects, every object, every jq program; the same `Map()` serves the Event item, `objects[i]`
+and the snapshot elements) shows exactly that object, and the `filterResult` next to it satisfies the
+clause the `oracle fr` line evaluates: it is the jq result for the object shown (absent without jqFilter). -/
+theorem shown_filter_result_clause (b : KBinding) (obj : J) (hk : b.cfg.keep = true) :
+    (OFR.json (ofrOfRun b.cfg obj)).get? "object" = some obj
+    ∧ Spec.filterResultClause b.cfg.filter obj ((OFR.json (ofrOfRun b.cfg obj)).get? "filterResult") = true := by
+  rw [ofrOfRun_eq]
+  refine ⟨?_, ?_⟩
+  · rw [ofr_json_eq_view]
+    unfold Spec.ObjView.json
+    rw [get_mkObj]
+    cases hf : b.cfg.filter <;> simp [Spec.viewOf, Spec.ObjView.fields, hk, hf, lastAssign]
+  · rw [filter_result_faithful]
+    simp [Spec.filterResultClause]
+
+/-- … and so does the element of an Event context, also when the jqFilter fails on the object (Deleted). -/
+theorem shown_filter_result_clause_event (b : KBinding) (obj : J) (hk : b.cfg.keep = true) :
+    (OFR.json (ofrEvent b.cfg obj)).get? "object" = some obj
+    ∧ Spec.filterResultClause b.cfg.filter obj ((OFR.json (ofrEvent b.cfg obj)).get? "filterResult") = true := by
+  unfold OFR.json
+  rw [ofr_event_map_eq_view, get_mkObj, get_mkObj]
+  cases hf : b.cfg.filter <;> simp [Spec.viewOf, Spec.ObjView.fields, Spec.filterResultClause, hk, hf, lastAssign]
+
+def exManagedCfg : Cfg := { types := [.added], filter := some (.one (.path ["metadata", "managedFields"])), keep := true }
+def exManagedObj : J :=
+  .obj [("metadata", .obj [("managedFields", .arr [.obj [("manager", .str "helm")]]), ("name", .str "o1")])]
+
+/-- Non-vacuity: an object with `metadata.managedFields` and the filter `.metadata.managedFields`. -/
+example : (OFR.json (ofrOfRun exManagedCfg exManagedObj)).print =
+    "{\"filterResult\":[{\"manager\":\"helm\"}],\"object\":{\"metadata\":{\"managedFields\":[{\"manager\":\"helm\"}],\"name\":\"o1\"}}}" := by
+  decide
+
+/-- Witness for the seeded change C09-w6m3 (the jq program runs on a copy without
+`metadata.managedFields`): the item shows the object with its managedFields and `filterResult: null` —
+the clause fails on what is shown; replayed on the real code by the metadata sweep (cases 140–151). -/
+theorem slim_copy_witness :
+    (OFR.json (ofrOfSlim exManagedCfg exManagedObj)).get? "object" = some exManagedObj
+    ∧ (OFR.json (ofrOfSlim exManagedCfg exManagedObj)).get? "filterResult" = some .null
+    ∧ Spec.filterResultClause exManagedCfg.filter exManagedObj
+        ((OFR.json (ofrOfSlim exManagedCfg exManagedObj)).get? "filterResult") = false := by
+  decide
+
 /-! Non-vacuity: a hook with a grouped binding, a self-including binding with a scalar filter and a
 schedule including both; a cluster with two objects; one run rendering four contexts. -/
 def exK1 : KBinding := { name := "k1", ns := "a", cfg := { types := [.added], filter := some (.one (.path ["spec", "replicas"])), keep := false },
